@@ -67,6 +67,10 @@ CHECKS = {
          "bounded-exhaustive enumeration of entry sets x query paths and of counter call histories on the exported filehandler API, against an independent definition of coverage",
          "Every entry set of size <=2 (thorough: <=3) over {exact, d/, d/*} x all paths to depth 3 (thorough: 4) is queried with every path incl. '/' and the empty path; every (Writable,Readable,Statable,SoftBan) 4-tuple of sets of size <=1 at depth 2 is checked through Handler.CheckRead/Write/Stat; a real symlink forest covers the raw-or-real clause; every counter table of <=2 names x counts {-1..3} is driven with every call sequence up to length 6 (7). Complete enumeration, no sampling.",
          "Trusted: the independent coverage definition in cmd/vcheck/c18.go (written from the property text). Excluded as ambiguous: '/' queried against '/*'; a hand-inserted map key '/'."),
+ "C19": ("exploration",
+         "bounded-exhaustive enumeration of send/receive sequences over payload size x descriptor count x credentials x receive buffer on real SOCK_SEQPACKET pairs (raw layer) and of rejected-then-normal scenarios on the gob-framed layer (verif-exported constructor); reference FIFO and descriptor accounting as oracle",
+         "Raw: every sequence of <=2 (thorough: <=3, also alternating send/receive) messages over payload {0,1,4095,4096,4097,32Ki,32Ki+1,200Ki} x descriptors {0,1,2,253,254} (254 distinct files, identity by dev/ino) x credentials {none, own, other ids} x receive buffer {4Ki,64Ki,(64, 32Ki)}: each message arrives whole, in order, with the same files in order, close-on-exec set, and the sent credentials, or an error is reported on either side; no descriptor that arrived with any message stays open afterwards; a later message is unaffected by an earlier rejected one. Framed: command and reply types in first-use and in warm position, payloads around the 32 KiB frame, with descriptors and credentials, oversize-then-normal, closed-descriptor-then-normal, normal-oversize-normal, oversize reply then normal.",
+         "Both ends live in one process. Open findings: empty payload with ancillary data is delivered as one dummy byte (Go standard library); a rejected first-use message poisons the gob stream."),
 }
 NA = {
 }
